@@ -46,6 +46,9 @@ def main() -> int:
     ap.add_argument("--tier", default="quick")
     ap.add_argument("--seed", type=int, default=20261004)
     args = ap.parse_args()
+    from jpsim import simlock
+
+    simlock.install()
     from jpsim import runner
 
     out = {}
